@@ -257,7 +257,7 @@ auto req_sketch<T, C, A>::get_CDF(const T* split_points, uint32_t size, bool inc
 template<typename T, typename C, typename A>
 auto req_sketch<T, C, A>::get_quantile(double rank, bool inclusive) const -> quantile_return_type {
   if (is_empty()) throw std::runtime_error("operation is undefined for an empty sketch");
-  if ((rank < 0.0) || (rank > 1.0)) {
+  if (std::isnan(rank) || (rank < 0.0) || (rank > 1.0)) {
     throw std::invalid_argument("Normalized rank cannot be less than 0 or greater than 1");
   }
   // possible side-effect of sorting level zero
